@@ -42,6 +42,10 @@ def run_kani(harnesses, scratch, repo, log, jobs=8, per_harness_timeout='30m', l
         res['reason'] = 'kani produced no summary (compile error or crash): ' + out[-1500:]
         return res
     failed = set(re.findall(r'Verification failed for - (\S+)', out))
+    covers = re.findall(r'\*\* (\d+) of (\d+) cover properties satisfied', out)
+    if not failed and (len(covers) < len(harnesses) or any(a != b for a, b in covers)):
+        res['reason'] = 'vacuity guard: a harness end is unreachable or a cover is missing (%s)' % covers
+        return res
     timed = set(re.findall(r'[Tt]imed? ?out[^\n]*?- (\S+)', out))
     # per-harness time: "Thread k: Checking harness X..." then result block with "Verification Time: Ns"
     cur = {}
